@@ -75,7 +75,8 @@ def run_scratch(seed_id: str, tier: str = "quick", props=None, seeds=("1",)) -> 
 
     d = os.path.join(SEEDED, seed_id)
     meta = json.load(open(os.path.join(d, "meta.json")))
-    props = props or [meta["property"]]
+    # 'checked_by': the property whose check observes the change when that is not the one its author named
+    props = props or [meta.get("checked_by") or meta["property"]]
     copy = make_copy()
     res = {"seed": seed_id, "results": {}}
     try:
@@ -102,7 +103,7 @@ def run_scratch(seed_id: str, tier: str = "quick", props=None, seeds=("1",)) -> 
 def run(seed_id: str, tier: str = "quick", props=None, seeds=("1",)) -> dict:
     d = os.path.join(SEEDED, seed_id)
     meta = json.load(open(os.path.join(d, "meta.json")))
-    props = props or [meta["property"]]
+    props = props or [meta.get("checked_by") or meta["property"]]
     if not repo_clean():
         raise SystemExit("/repo has uncommitted changes; refusing to apply a seeded change")
     res = {"seed": seed_id, "results": {}}
